@@ -34,6 +34,14 @@ class Node(_MaybeUnpicklable, persistent.Persistent):
         self.refs = ()
 
 
+class BigNode(Node):
+    """a Node whose pickled state is larger than 64 KiB (copy loops work in 64 KiB chunks)"""
+
+    def __init__(self):
+        Node.__init__(self)
+        self.pad = 'x' * 70000
+
+
 class SelfActNode(Node):
     """a Node that does not stay a ghost: when it is invalidated it reloads its state at once (like a
     persistent class, or ZODB's SelfActivatingObject test helper)"""
